@@ -421,7 +421,7 @@ func TestC05(t *testing.T) {
 		hintCounts[g.name] = res.NHints
 	}
 	r.Extra("gadget_hint_calls", fmt.Sprint(hintCounts))
-	rapidCheck(t, "gadgets", tierN(14000, 500000), func(rt *rapid.T) {
+	rapidCheck(t, "gadgets", tierN(14000, 150000), func(rt *rapid.T) {
 		g := rapid.SampledFrom(c05Gadgets).Draw(rt, "gadget")
 		in := g.gen(rt)
 		idx := rapid.IntRange(0, hintCounts[g.name]-1).Draw(rt, "hint")
@@ -562,7 +562,7 @@ func TestC05(t *testing.T) {
 	// The corpus circuits fix the gate parameters (BaseSum base 2, RandomAccess 4 bits, ...); the PLONK
 	// part of the verifier evaluates whatever gates the circuit description names.
 	gateObl := map[string]int{}
-	rapidCheck(t, "gate-monitor", tierN(300, 12000), func(rt *rapid.T) {
+	rapidCheck(t, "gate-monitor", tierN(300, 2500), func(rt *rapid.T) {
 		typ := rapid.SampledFrom(gateTypes).Draw(rt, "gate")
 		if (typ == "Poseidon" || typ == "PoseidonMds") && rapid.IntRange(0, 3).Draw(rt, "thin") != 0 {
 			typ = rapid.SampledFrom(gateTypes[4:]).Draw(rt, "gate2") // the Poseidon gates are ~50x more expensive
